@@ -1,24 +1,28 @@
 #!/bin/sh
-# tools/confirm_seed.sh <ID> [worktree]: re-confirms a seeded change independently:
+# tools/confirm_seed.sh <ID> [worktree [outname]]: re-confirms a seeded change independently:
 # builds, runs golua's suite, runs the demonstration with and without the change,
-# and stores patch + demo under /verif/seeded/<ID>/.
+# and stores patch + demo under /verif/seeded/<outname or ID>/.
 id=$1; wt=${2:-/tmp/seed-$id}
 export GOFLAGS=-mod=mod GOPROXY=off GOSUMDB=off GOTOOLCHAIN=local
-out=/verif/seeded/$id; mkdir -p $out
+out=/verif/seeded/${3:-$id}; mkdir -p $out
 cd $wt || exit 1
 git diff > $out/patch.diff
 [ -s $out/patch.diff ] || { echo "$id: empty patch"; exit 1; }
 rm -rf $out/demo; cp -r seed-demo $out/demo
-go build -ldflags=-checklinkname=0 ./... || { echo "$id: BUILD FAILS"; exit 1; }
-go test -count=1 -vet=off ./... > /tmp/confirm-$id-base.log 2>&1
+go build -ldflags=-checklinkname=0 $(go list ./... | grep -v seed-demo) || { echo "$id: BUILD FAILS"; exit 1; }
+pkgs=$(go list ./... | grep -v seed-demo)
+go test -count=1 -vet=off $pkgs > /tmp/confirm-$id-base.log 2>&1
 basepass=$(grep -c "^ok" /tmp/confirm-$id-base.log)
-go test -count=1 -vet=off -ldflags=-checklinkname=0 ./... > /tmp/confirm-$id-full.log 2>&1
+go test -count=1 -vet=off -ldflags=-checklinkname=0 $pkgs > /tmp/confirm-$id-full.log 2>&1
 rm -f lib/iolib/files/popenwrite.txt
 fullfail=$(grep "^--- FAIL\|^    --- FAIL" /tmp/confirm-$id-full.log | tr '\n' ' ')
 demo=$(ls seed-demo/*.lua 2>/dev/null | head -1)
 run_demo() { # $1 = binary suffix
-  if [ -x seed-demo/run.sh ] || [ -f seed-demo/run.sh ]; then (sh seed-demo/run.sh > /tmp/confirm-$id-demo-$1.log 2>&1; echo $?); else
-    go build -ldflags=-checklinkname=0 -o /tmp/golua-confirm-$id-$1 . && (/tmp/golua-confirm-$id-$1 $demo > /tmp/confirm-$id-demo-$1.log 2>&1; echo $?); fi
+  if [ -f seed-demo/run.sh ]; then (sh seed-demo/run.sh > /tmp/confirm-$id-demo-$1.log 2>&1; echo $?)
+  elif ls seed-demo/*_test.go >/dev/null 2>&1; then (go test -count=1 -vet=off -ldflags=-checklinkname=0 ./seed-demo/ > /tmp/confirm-$id-demo-$1.log 2>&1; echo $?)
+  elif [ -f seed-demo/main.go ]; then (go run -ldflags=-checklinkname=0 ./seed-demo > /tmp/confirm-$id-demo-$1.log 2>&1; echo $?)
+  else
+    go build -ldflags=-checklinkname=0 -o /tmp/golua-confirm-$id-$1 . && (cd $(dirname $demo) && /tmp/golua-confirm-$id-$1 $(basename $demo) > /tmp/confirm-$id-demo-$1.log 2>&1; echo $?); fi
 }
 with=$(run_demo with)
 git apply -R $out/patch.diff
